@@ -1,3 +1,4 @@
+@classmethod
 def spec(cls, spike_charge, interp_mode='previous', interp_tol=0.0, current_overbound=0.0, spike_overbound=False, inplace=False):
 
     def constructor(shape: tuple[int, ...] | int, step_time: float, delay: float, batch_size: int):
